@@ -95,7 +95,8 @@ func vfAllowKnown(sig string, n int) func(t *rapid.T) bool {
 func TestVF_C09_TanTiny(t *testing.T) {
 	st := vfhelp.NewStats("TestVF_C09_TanTiny", logstore.C09Rule+"; tan MaxLogFileSize drawn from 200..8000 bytes")
 	defer st.Flush()
-	cfg := logstore.GenCfg{MaxEntries: 200, MinOps: 5, MaxOps: 40, BigCmd: true}
+	cfg := logstore.GenCfg{MaxEntries: 200, MinOps: 5, MaxOps: 40, BigCmd: true, NewLife: true,
+		Weights: map[logstore.OpKind]int{logstore.OpRemoveNode: 5}}
 	if vfhelp.Thorough() {
 		cfg.MaxOps = 60
 	}
